@@ -378,10 +378,10 @@ def step (st : St) (line : String) : St × String :=
   | ["setup", ms, ks] =>
     match handle 'M' ms, handle 'K' ks with
     | some i, some k =>
-      let (m, n) := setup st.rng
+      let (m, n) := setup st.rng defaultTracers
       -- `Covercrypt::setup`: update with the rights of the empty structure; the resulting state is the
       -- initial world of the reachable-world theorems
-      let w0 := World.init st.rng
+      let w0 := World.init st.rng defaultTracers
       match updateMsk m m.structure_.omega n with
       | (.error e, _, n') => ({ st with rng := n' }, errLine e)
       | (.ok _, _, _) =>
